@@ -632,6 +632,18 @@ def r_borrowed_r06_18(idx, r):
     r2_cycle(idx, Only(r, ["starting-node"]))
 
 
+def r_borrowed_r06_20(idx, r):
+    """clause of C05 that loading a snapshot and a parameter history rest on (R05.2, per-dtype clause only): an unset value is stored as the
+    placeholder NONE_MAP gives for the column's element type, and ALL readers of a stored column (database.unpackSpecialData for a load, the two
+    history readers checked by R06.10, Layout for the grid indices) hand the column to layout.replaceNonsenseWithNones, whose if-chain picks by numpy class the placeholder
+    it scans for.  For every type of NONE_MAP the FIRST branch of that chain whose numpy class covers the type's kind must scan for the very
+    placeholder that was written (np.integer covers unsigned types too, so the order of the branches matters): otherwise an unset entry of
+    such a column comes back as the placeholder (65533 for uint16) and a genuine value equal to the other placeholder comes back as None."""
+    from ..report import Only
+    from .c05 import r2_sentinels
+    r2_sentinels(idx, Only(r, ["sentinel:"]))
+
+
 def r19_nesting_count_and_zero_values(idx, r):
     """(a) the output database is a re-entrant context: every `__enter__` adds one to the open count on EVERY path (directly or by opening the
     file), because every `__exit__` takes one off and closes - marking the run successful - when the count reaches zero.  An `__enter__` on an
@@ -703,3 +715,5 @@ def run(idx, chk):
                  necessary="a snapshot holds the state of its step; a restart begins at the node asked for")
     chk.run_rule("R06.19", "__enter__ counts once on every path; an absent dictionary key is marked through get's default, never through `or`", lambda r: r19_nesting_count_and_zero_values(idx, r), floor=2,
                  necessary="the output file stays open until its outermost user leaves and is marked complete only then; every written value is in the snapshot")
+    chk.run_rule("R06.20", "clause of C05 a loaded snapshot / a history rests on: for every element type of NONE_MAP the reader's first matching dtype branch scans for the placeholder that was written for None (R05.2)", lambda r: r_borrowed_r06_20(idx, r), floor=13,
+                 necessary="loading a snapshot, and a parameter history, return the value that was written - None where the parameter was unset, and the number where it was set")
